@@ -868,6 +868,11 @@ def spec_check(ctx, budget):
         "Sequence.get_translation old/new (dna, rna, via rc'd view) x stop options; SequenceCollection / ArrayAlignment / "
         "Alignment / new SequenceCollection / app.translate_seqs / translate_frames; complement, resolve, re-encode on all "
         "IUPAC symbols and base sets of 4 moltypes; rc involution on random IUPAC strings (moltype and sequence level); "
+        "witnesses of repaired findings (regression corpus); get_code by id/str/name x every accessor of every code; "
+        "translate on gapped/ambiguous/RNA/lower-case text; has_terminal_stop / trim_stop_codon(s) incl. gap-padded stops; "
+        "get_translation with ---/A--/ambiguity codons; select_translatable / best_frame on sequences with one stop-free "
+        "frame on either strand; complement/rc vs the IUPAC table; multi-character resolve_ambiguity, degenerate_from_seq, "
+        "strand_symmetric_motifs, can_pair/can_mispair/can_match; "
         "non-trivial = distinct cases with a non-empty expected result"
     )
     rng = ctx.subrng(f"spec{budget}")
